@@ -9,6 +9,7 @@ import A10Verif.Model.Addr
 import A10Verif.Model.Life
 import A10Verif.Model.SqRing
 import A10Verif.Model.Wake
+import A10Verif.Model.Blocked
 import A10Verif.Model.Bufs
 import A10Verif.Model.Composite
 import A10Verif.Model.ReadBuf
@@ -21,6 +22,7 @@ structure DriverState where
   life : Life.Sys := {}
   sq : SqRing.St := SqRing.init 1 0 0
   wake : Wake.St := {}
+  blk : Blocked.St := Blocked.init 1 0 0
   bufs : Bufs.St := Bufs.init
   readbuf : ReadBuf.St := ReadBuf.init
   inotify : Inotify.St := Inotify.init
@@ -33,6 +35,7 @@ def dispatch (st : DriverState) (toks : List String) : DriverState × List Strin
   | "inotify" :: _ => let (s, o) := Inotify.stepLine st.inotify toks; ({ st with inotify := s }, o)
   | "bufs" :: _ => let (s, o) := Bufs.stepLine st.bufs toks; ({ st with bufs := s }, o)
   | "composite" :: _ => (st, Composite.stepLine toks)
+  | "blk" :: _ => let (s, o) := Blocked.stepLine st.blk toks; ({ st with blk := s }, o)
   | "wake" :: _ => let (s, o) := Wake.stepLine st.wake toks; ({ st with wake := s }, o)
   | "sq" :: _ => let (s, o) := SqRing.stepLine st.sq toks; ({ st with sq := s }, o)
   | "life" :: _ => let (s, o) := Life.stepLine st.life toks; ({ st with life := s }, o)
